@@ -106,6 +106,34 @@ def rule_source_order(rep: Report, repo: Repo, rule: str) -> str:
                 if i > g:
                     rep.bad(rule, where, f"{cfg_var}.{k}(...) after get(template)",
                             "a source is added after the settings were read: it has no effect, or shadows validated values")
+    # every *resolving* read of the configuration (also through a view: settings["a"]["b"].get()) sees all the layers only
+    # after the last set_file / set_args; a view object alone is lazy and may be taken earlier
+    RESOLVING = {"get", "all_contents", "exists", "keys", "items", "values", "flatten", "first", "resolve", "as_str", "as_number",
+                 "as_filename", "as_path", "as_choice", "as_str_seq", "as_pairs", "as_str_expanded", "as_template", "sequence"}
+
+    def _root(e):
+        while isinstance(e, (ast.Subscript, ast.Attribute)):
+            e = e.value
+        return e
+    views = {cfg_var}
+    for st in ast.walk(main):
+        if isinstance(st, ast.Assign) and len(st.targets) == 1 and isinstance(st.targets[0], ast.Name) and \
+                isinstance(st.value, ast.Subscript) and isinstance(_root(st.value), ast.Name) and _root(st.value).id in views:
+            views.add(st.targets[0].id)
+    layer_idx = [i for k in ("set_file", "set_args") for i in idx.get(k, [])]
+    n_reads = 0
+    for i, st in enumerate(main.body):
+        for c in calls_in(st):
+            if isinstance(c.func, ast.Attribute) and c.func.attr in RESOLVING and isinstance(_root(c.func.value), ast.Name) \
+                    and _root(c.func.value).id in views:
+                n_reads += 1
+                rep.check(not layer_idx or i > max(layer_idx), rule, where, norm(c)[:80],
+                          "the configuration is read before the -s file and the command line are layered on: for this value the "
+                          "-s file (and any flag) is ignored and the user config or the packaged default decides",
+                          witness="-s file with output.relative_to_config: true, run from another directory",
+                          key=f"{rule}|early-read|{norm(c.func.value)[:60]}")
+    if n_reads == 0:
+        raise AnalysisError("anchor vanished: main() never reads the configuration")
     for i, k, c in order:
         if k == "set_args":
             dots = next((kw.value for kw in c.keywords if kw.arg == "dots"), None)
